@@ -91,6 +91,14 @@ def run(ctx: Ctx):
         at = tgv.guard_atoms(tcfg.node_of(exact[0]), stable_only=False)
         ok = at == {"T:all((v == int(v) for v in all_vals))"}
     ctx.ob("C16-O4", "R1 STATUS-GUARD", tic, "integral capacity and weights take the exact path (scale 1) unconditionally", ok, "any further condition sends integer data through the rounding path, where light items are rounded up and the DP rejects subsets that fit - still labelled OPTIMAL", node=exact[0] if exact else tic.node)
+    for r_ in own_nodes(tic.node):
+        if isinstance(r_, ast.Return) and ast.unparse(r_.value) == "(0, 1.0)":
+            at = tgv.guard_atoms(tcfg.node_of(r_), stable_only=False)
+            ctx.ob("C16-O4", "R1 STATUS-GUARD", tic, "the DP capacity is 0 only for a capacity that is not positive", atom_of("capacity <= 0") in at, f"{sorted(at)}: with capacity 0 the DP can take zero-weight items only, and that answer is labelled OPTIMAL", node=r_)
+    for d_ in own_nodes(tic.node):
+        if isinstance(d_, ast.BinOp) and isinstance(d_.op, ast.Div) and "capacity" in names_in(d_.right):
+            at = tgv.guard_atoms(tcfg.stmt_node_containing(d_), stable_only=False)
+            ctx.ob("C16-O4", "R35 NO-RAISING-FLOAT-OP", tic, f"`{ast.unparse(d_)}` divides by a positive capacity", atom_of("capacity > 0") in at, f"{sorted(at)}: capacity 0 with decimal weights (inside the property's quantifier) raises ZeroDivisionError", node=d_)
     av = [n.value for n in own_nodes(tic.node) if isinstance(n, ast.Assign) and ast.unparse(n.targets[0]) == "all_vals"]
     ctx.ob("C16-O4", "R1 STATUS-GUARD", tic, "the integrality test looks at the capacity and every positive weight", len(av) == 1 and ast.unparse(av[0]) == "[capacity] + [w for w in weights if w > 0]", "", node=tic.node)
 
@@ -113,6 +121,11 @@ def run(ctx: Ctx):
     defs = [ast.unparse(n.value) for n in own_nodes(b.node) if isinstance(n, ast.Assign) and ast.unparse(n.targets[0]) == "indices"]
     ok = sorted(defs) == sorted(["list(range(n))", "sorted(range(n), key=lambda i: item_sizes[i], reverse=True)"])
     ctx.ob("C16-O3", "R29 EXACTLY-ONCE", b, "iteration order is a permutation of range(n) (decreasing variants sort by size, descending)", ok, f"{defs}", node=b.node)
+    for n in own_nodes(b.node):
+        if isinstance(n, ast.Assign) and ast.unparse(n.targets[0]) == "indices":
+            at = gv.guard_atoms(cfg.node_of(n), stable_only=False)
+            srt = "sorted(" in ast.unparse(n.value)
+            ctx.ob("C16-O3", "R5 PAIRING", b, f"the {'sorted' if srt else 'input'} order is used exactly {'for' if srt else 'outside'} the decreasing variants", ("T:decreasing" in at) if srt else ("F:decreasing" in at), f"{sorted(at)[-3:]}: a decreasing variant that packs in input order loses the 11/9 OPT + 6/9 guarantee", node=n)
     opens = [n for n in own_nodes(b.node) if isinstance(n, ast.Call) and ast.unparse(n.func) == "bins.append"]
     for o in opens:
         blk = _enclosing_block(b.node, cfg.stmt_node_containing(o).ast)
